@@ -43,6 +43,7 @@ DEFAULT_CFG = {
     "env_seed": 0,
     "extra_conf": {},
     "initial_states": None,
+    "set_order_salt": 0,
     "fire_started": True,
 }
 
@@ -503,6 +504,8 @@ class World:
                 stack.enter_context(patch.object(ha_core, "monotonic", shim.monotonic))
                 stack.enter_context(patch.object(dt_util, "utcnow", self.clock.utc))
                 stack.enter_context(patch.object(mqtt_mod, "async_subscribe", self.broker.async_subscribe))
+                for hook in self._hash_seams():
+                    stack.enter_context(hook)
                 for hook in self.extra_patches():
                     stack.enter_context(hook)
 
@@ -539,6 +542,27 @@ class World:
     def extra_patches(self) -> list:
         """Additional context managers (property specific seams)."""
         return []
+
+    def _hash_seams(self) -> list:
+        """Address-based hashes decide set iteration order (Event.notify, GlobalContext.triggers/dms):
+        replace them by a per-run sequence number, permuted by ``set_order_salt`` (an explored choice)."""
+        from custom_components.pyscript.decorator_abc import DecoratorManager
+        from custom_components.pyscript.eval import EvalFunc
+        from custom_components.pyscript.jupyter_kernel import ZmqSocket
+
+        salt = int(self.cfg.get("set_order_salt", 0))
+        counter = [0]
+
+        def seq_hash(obj):
+            val = obj.__dict__.get("_sim_hash")
+            if val is None:
+                counter[0] += 1
+                val = (counter[0] * 7919 + salt * 104729) % 1000003 if salt else counter[0]
+                obj.__dict__["_sim_hash"] = val
+            return val
+
+        return [patch.object(cls, "__hash__", seq_hash)
+                for cls in (asyncio.Queue, EvalFunc, DecoratorManager, ZmqSocket)]
 
     def enable_env(self) -> None:
         cfg = self.cfg
@@ -630,6 +654,10 @@ class World:
             if self.quiescent():
                 return n + 1
         raise HarnessError("drain: system did not become quiescent")
+
+    async def started(self) -> None:
+        """Wait until the start-up work (service descriptions through the executor, trigger start) is over."""
+        await self.settle(2.0)
 
     async def settle(self, horizon: float = 0.0) -> None:
         """Drain; optionally also let ``horizon`` virtual seconds elapse and drain again."""
